@@ -61,9 +61,14 @@ def _worker_init(modname, env=None):
     # before numba is imported; the parent's environment is never touched
     os.environ.update(env or {})
     os.environ.setdefault('NUMBA_NUM_THREADS', '16')
+    global _INIT_ERR
+    _INIT_ERR = None
     _MOD = importlib.import_module(modname)
     if hasattr(_MOD, 'worker_init'):
-        _MOD.worker_init()
+        try:
+            _MOD.worker_init()
+        except Exception as e:      # reported per case (or as a stale driver), never by killing the pool
+            _INIT_ERR = e
 
 
 class Stale(Exception):
@@ -71,16 +76,45 @@ class Stale(Exception):
     the case is skipped and counted, never reported as a violation"""
 
 
+def stale_reason(e):
+    """An exception that only says the DRIVER no longer fits the code (a private helper it called by name or by positional
+    signature was renamed / moved / re-parameterised, or an interpreted twin cannot be built) is not evidence about the
+    property: such cases are skipped, counted (cases_skipped_driver_stale) and announced with a NOTE line."""
+    import traceback as tb
+    name = type(e).__name__
+    if name in ('TwinError',) or (isinstance(e, SyntaxError) and str(getattr(e, 'filename', '')).endswith(':twin')):
+        return f'{name}: {e}'[:300]
+    frames = tb.extract_tb(e.__traceback__)
+    inner = frames[-1] if frames else None
+    in_harness = inner is not None and (os.sep + 'vf' + os.sep) in inner.filename and 'abacusnbody' not in inner.filename
+    if isinstance(e, (AttributeError, ImportError)) and in_harness and ('abacusnbody' in str(e) or "has no attribute '_" in str(e) or 'object has no attribute' in str(e)):
+        return f'{name} in the driver ({os.path.basename(inner.filename)}:{inner.lineno}): {e}'[:300]
+    msg = str(e)
+    if isinstance(e, TypeError) and name != 'TypingError' and any(p in msg for p in (
+            'missing a required argument', 'too many positional arguments', 'got an unexpected keyword argument',
+            'multiple values for argument', 'required positional argument', 'takes from', 'positional arguments but',
+            'too many arguments: expected', 'not enough arguments: expected')):
+        return f'call signature no longer matches the driver: {msg[:200]}'
+    return None
+
+
 def _safe_run(mod, case):
     try:
         r = mod.run(case)
     except Stale as e:
         r = dict(problems=[], evals=0, extra=dict(cases_skipped_driver_stale=1), stale=str(e)[:300])
-    except Exception as e:  # a harness or library crash is a problem of that case, never silence
+    except Exception as e:
+        st = stale_reason(e)
+        if st:
+            return dict(problems=[], evals=0, extra=dict(cases_skipped_driver_stale=1), stale=st)
+        # otherwise a crash is a problem of that case, never silence
         r = dict(problems=[dict(sig='exception:' + type(e).__name__,
                                 msg=''.join(traceback.format_exception(e))[-2500:])])
     r.setdefault('problems', [])
     return r
+
+
+_INIT_ERR = None
 
 
 def _noop(i):
@@ -91,6 +125,15 @@ def _noop(i):
 def _worker_run(chunk):
     out = []
     for case in chunk:
+        if _INIT_ERR is not None:
+            st = stale_reason(_INIT_ERR)
+            if st:
+                r = dict(problems=[], evals=0, extra=dict(cases_skipped_driver_stale=1), stale='worker_init: ' + st)
+            else:
+                r = dict(problems=[dict(sig='exception:worker_init:' + type(_INIT_ERR).__name__,
+                                        msg=''.join(traceback.format_exception(_INIT_ERR))[-2000:])])
+            out.append((case, r))
+            continue
         out.append((case, _safe_run(_MOD, case)))
     return out
 
@@ -391,7 +434,10 @@ def main(modname, argv=None):
           f"states={agg.states} transitions={agg.transitions} traces={agg.traces} "
           f"extra={json.dumps(agg.extra, default=jdefault)} wall={wall:.1f}s rc={rc}")
     # vacuity guard: a run that explored nothing must not pass silently
-    if rc == 0 and (agg.cases == 0 or len(agg.nt) < 2):
+    nstale = agg.extra.get('cases_skipped_driver_stale', 0)
+    if rc == 0 and nstale and nstale >= agg.cases - 1:
+        print(f'NOTE {pid}: the driver could not reach the code under test in {nstale} of {agg.cases} cases; nothing was decided by this run')
+    elif rc == 0 and (agg.cases == 0 or len(agg.nt) < 2):
         print(f'HARNESS-ERROR {pid}: vacuous run (cases={agg.cases}, nontrivial={len(agg.nt)})')
         rc = 2
     return rc
